@@ -32,11 +32,14 @@ type lifetimeTable struct {
 	fields map[*types.Var]string
 	// owner pairing: Event field -> Done field of the same struct
 	eventDone map[*types.Var]*types.Var
+	// sendPair: further channels a blocking send on which must be paired with one particular lifetime channel of the
+	// same object — the peer's view of its torrent (torEvent/torDone) and of its writer goroutine (writer/writerDone)
+	sendPair map[*types.Var]*types.Var
 }
 
 func lifetimeOf(r *Report, rule string) *lifetimeTable {
 	p := r.P
-	lt := &lifetimeTable{fields: map[*types.Var]string{}, eventDone: map[*types.Var]*types.Var{}}
+	lt := &lifetimeTable{fields: map[*types.Var]string{}, eventDone: map[*types.Var]*types.Var{}, sendPair: map[*types.Var]*types.Var{}}
 	add := func(pkg, typ, f string) *types.Var {
 		v := p.Field(pkg, typ, f)
 		if r.Anchor(rule, pkg+"."+typ+"."+f, v != nil) {
@@ -54,6 +57,12 @@ func lifetimeOf(r *Report, rule string) *lifetimeTable {
 	}
 	if pe := p.Field("peer", "Peer", "Event"); r.Anchor(rule, "peer.Peer.Event", pe != nil) && pd != nil {
 		lt.eventDone[pe] = pd
+	}
+	for _, pr := range [][2]string{{"torEvent", "torDone"}, {"writer", "writerDone"}} {
+		a, b := p.Field("peer", "Peer", pr[0]), p.Field("peer", "Peer", pr[1])
+		if r.Anchor(rule, "peer.Peer."+pr[0]+"/"+pr[1], a != nil && b != nil) {
+			lt.sendPair[a] = b
+		}
 	}
 	return lt
 }
@@ -202,6 +211,9 @@ func checkChanOp(r *Report, rule string, lt *lifetimeTable, op chanOp, nReplySen
 			}
 			done, ok := lt.eventDone[s.Field]
 			if !ok {
+				done, ok = lt.sendPair[s.Field]
+			}
+			if !ok {
 				continue
 			}
 			matched := false
@@ -211,7 +223,7 @@ func checkChanOp(r *Report, rule string, lt *lifetimeTable, op chanOp, nReplySen
 				}
 			}
 			if !matched {
-				r.Fail(rule, key, pos, "send on %s.Event is not paired with a receive from the same object's Done channel: it can block forever once that owner has exited", exprStr(s.Base))
+				r.Fail(rule, key, pos, "send on %s.%s is not paired with a receive from the same object's %s channel: it can block forever once that owner has exited (another lifetime channel in the select does not help — it is closed by somebody else, possibly later)", exprStr(s.Base), s.Field.Name(), done.Name())
 				return
 			}
 		}
